@@ -695,7 +695,7 @@ fn generate(ctx: &Ctx) {
   ctx.assume("serde_json trees are compared; the baseline of the rewrite model is the library's own JSON of the input document");
   ctx.assume("documents mentioning the reserved placeholder did:0:0 are excluded (property)");
   // (a)
-  let bound = ctx.by_tier(Some(3u32), None);
+  let bound = ctx.by_tier(Some(4u32), None);
   choice::explore_into(ctx, "documents x targets", bound, |ch| doc_body(ctx, ch));
   flush_shards(ctx);
   // (b)
